@@ -20,6 +20,7 @@
 """ICalendar file handling."""
 
 import logging
+import re
 from collections.abc import Iterable
 from datetime import datetime, time, timedelta, timezone
 from typing import Callable, Optional, Union
@@ -469,6 +470,13 @@ class ComponentTimeRangeMatcher:
         return [["P=" + prop] for prop in props]
 
 
+def _unescape_text(text: str) -> str:
+    """Undo the escaping of a TEXT value (RFC 5545, section 3.3.11)."""
+    return re.sub(
+        r"\\(.)", lambda m: "\n" if m.group(1) in "nN" else m.group(1), text, flags=re.S
+    )
+
+
 class TextMatcher:
     def __init__(
         self,
@@ -490,9 +498,15 @@ class TextMatcher:
         return f"{self.__class__.__name__}({self.name!r}, {self.text!r}, collation={self.collation!r}, negate_condition={self.negate_condition!r})"
 
     def match_indexes(self, indexes: SubIndexDict):
-        return any(
-            self.match(self.type_fn(self.type_fn.from_ical(k))) for k in indexes[None]
-        )
+        return any(self.match(self._from_index(k)) for k in indexes[None])
+
+    def _from_index(self, k):
+        # The index holds to_ical() output. Newer icalendar releases leave the
+        # unescaping of TEXT to the parser rather than to vText.from_ical().
+        v = self.type_fn(self.type_fn.from_ical(k))
+        if isinstance(v, vText) and isinstance(k, bytes) and v.to_ical() != k:
+            v = vText(_unescape_text(k.decode("utf-8")))
+        return v
 
     def match(self, prop: Union[vText, vCategory, str]):
         if isinstance(prop, vText):
